@@ -206,8 +206,6 @@ def run(chk):
                     chk.known('C04-xpath1-comparison-chains', desc | {'impl': 'rejected' if got == [-9] else got, 'spec': sp})
                 elif got == mo and v == '10' and has_prefix_union and got != [-9] and sp != [-9]:
                     chk.known('C04-xpath1-unary-union', desc | {'impl': got, 'spec': sp})
-                elif got == mo and v != '10' and ncmp >= 2 and sp == [-9] and got != [-9]:
-                    chk.known('C04-mixed-comparison-chains', desc | {'impl': got, 'spec': 'rejected'})
                 else:
                     chk.violation('impl-vs-spec', desc, {'impl': got, 'spec': sp, 'model': mo})
             if mo != [-9] and len(toks) >= 5:
